@@ -282,7 +282,11 @@ def clean_alt(d):
         os.remove(f)
 
 
+RECHK = os.path.join(MUTDIR, "rechecks.jsonl")
+
+
 def load_results():
+    """results.jsonl (append-only, written by `run`) merged with rechecks.jsonl (append-only, written by `recheck`)."""
     done = {}
     if os.path.exists(RES):
         for l in open(RES):
@@ -291,6 +295,18 @@ def load_results():
                 done[r["id"]] = r
             except Exception:
                 pass
+    if os.path.exists(RECHK):
+        for l in open(RECHK):
+            try:
+                k = json.loads(l)
+            except Exception:
+                continue
+            r = done.get(k["id"])
+            if not r:
+                continue
+            r.setdefault("rechecks", []).append(k)
+            if any(x["exit"] == 1 for x in k["checks"].values()) and r.get("verdict") in ("survived", "inconclusive", "killed-after-strengthening"):
+                r["verdict"] = "killed-after-strengthening"
     return done
 
 
@@ -378,13 +394,8 @@ def cmd_recheck(args):
             finally:
                 restore(d, c)
             print(n, c["file"], c["line"], c["desc"], {p: x["exit"] for p, x in res.items()}, flush=True)
-            c.setdefault("rechecks", []).append(dict(tier=tier, at=time.strftime("%Y-%m-%dT%H:%M:%S"), checks=res))
-            if any(x["exit"] == 1 for x in res.values()):
-                c["verdict"] = "killed-after-strengthening" if c.get("verdict") in ("survived", "killed-after-strengthening") else c.get("verdict", "killed")
-            done[n] = c
-        with open(RES, "w") as fo:
-            for r in done.values():
-                fo.write(json.dumps(r) + "\n")
+            with open(RECHK, "a") as fo:
+                fo.write(json.dumps(dict(id=n, tier=tier, at=time.strftime("%Y-%m-%dT%H:%M:%S"), checks=res)) + "\n")
     finally:
         shutil.rmtree(d, ignore_errors=True)
         clean_alt(d)
